@@ -247,6 +247,21 @@ func (r *Result) Merge(o *Result) {
 	r.Exhaustive = r.Exhaustive || o.Exhaustive
 }
 
+// Snapshot returns the JSON form of the result as it is now (safe to call while the run continues).
+func (r *Result) Snapshot() ([]byte, error) {
+	r.mu.Lock()
+	defer r.mu.Unlock()
+	keys := make([]string, 0, len(r.Distinct))
+	for k := range r.Distinct {
+		keys = append(keys, k)
+	}
+	return json.Marshal(map[string]interface{}{
+		"property": r.Property, "evaluations": r.Evaluations, "distinct_keys": keys, "samples": r.Samples, "observed": r.Observed,
+		"violations": r.Violations, "inconclusive": r.Inconclusive, "assumptions": r.Assumptions, "required": r.Required, "extra": r.Extra,
+		"exhaustive": r.Exhaustive, "broken": r.Broken,
+	})
+}
+
 // Freeze prepares for JSON transport between worker and supervisor.
 func (r *Result) Freeze() {
 	r.mu.Lock()
